@@ -1,5 +1,5 @@
 """C10 — interning is a stable bijection between strings and keys."""
-import itertools
+import itertools, os
 from .runner import Property
 from .core import Rng
 from .treefmt import parse_text, show_text
@@ -65,7 +65,9 @@ class C10(Property):
             res.append(("corpus", "I %s i97 i98 %s %s" % (b, " ".join("k%d" % r for r in bounds), " ".join("r%d" % r for r in bounds))))
         # capacity exhaustion of the small key types reached for real
         res.append(("corpus", "I c " + " ".join("i%d" % (1000 + i) for i in range(258)) + " i1000 j2000 r254 r255 r0"))
-        if tier == "thorough":
+        if tier == "thorough" and os.environ.get("VERIF_SOAK"):
+            # exhausting a 16-bit key space takes 65 538 interns; the list-based model needs about 20 minutes per
+            # profile for it, so it only runs as a soak (VERIF_SOAK=1); the 8-bit key space above is the same code
             res.append(("corpus", "I m " + " ".join("i%d" % (1000 + i) for i in range(65538)) + " i1000 j200000 r65534 r65535 r0"))
         n, k = (5, 4) if tier == "quick" else (6, 5)
         for ln in range(1, n + 1):
